@@ -4,11 +4,12 @@
    [fmt_time]/[pt] for time.Format / time.Parse(RFC3339); their round-trip
    premises are hypotheses (trusted base, instantiated by the harness from the
    real functions).  Integer and boolean texts are modelled and proved. *)
-From Coq Require Import List ZArith.
+From Coq Require Import List ZArith Ascii.
 Import ListNotations.
 Local Open Scope Z_scope.
 From Goag Require Import Base.Str Model.Router Model.Params Model.Json Model.Client Spec.JsonSpec
      Proofs.IntFormat Proofs.ClientProofs Proofs.JsonRtProofs.
+From Goag Require Import Model.Serve Model.UrlEscape Proofs.UrlEscapeProofs Proofs.WireProofs.
 
 (* Parameters: for every operation declaration, every base path and every
    parameter set of the domain (DESIGN section 11: declared names pairwise
@@ -45,3 +46,46 @@ Theorem C09_body_agree : forall fmt_float fmt_time parse_num parse_time,
     rt_ok s v -> enc fmt_float fmt_time s v = Ok j -> dec parse_num parse_time s j = Ok v.
 Proof. exact roundtrip. Qed.
 Print Assumptions C09_body_agree.
+
+(* The bytes on the wire (Model/UrlEscape.v transcribes net/url's escape,
+   unescape, Values.Encode and parseQuery for the two modes the generated code
+   reaches).  Every path value, whatever bytes it holds, comes back from
+   url.PathEscape through net/http's unescaping as itself ... *)
+Theorem C09_path_escape_roundtrip : forall s, unescape false (path_escape s) = Some s.
+Proof. exact path_unescape_escape. Qed.
+Print Assumptions C09_path_escape_roundtrip.
+
+(* ... and its escaped text holds no '/', '?' or '#', so it cannot change the
+   number of segments, start the query or start a fragment *)
+Theorem C09_path_escape_keeps_structure : forall s c,
+  In c (path_escape s) -> c <> slash /\ c <> qmark /\ c <> "#"%char.
+Proof. exact path_escape_no_structure. Qed.
+Print Assumptions C09_path_escape_keeps_structure.
+
+Theorem C09_query_escape_roundtrip : forall s, unescape true (query_escape s) = Some s.
+Proof. exact query_unescape_escape. Qed.
+Print Assumptions C09_query_escape_roundtrip.
+
+(* url.Values.Encode followed by URL.Query(): the list of pairs, byte for byte *)
+Theorem C09_query_string_roundtrip : forall ps, parse_query (encode_query ps) = ps.
+Proof. exact query_roundtrip. Qed.
+Print Assumptions C09_query_string_roundtrip.
+
+(* The request of C09_params_agree is the one net/http reconstructs from the
+   URL the client wrote: URL.Path is the unescaped raw path (base path and
+   literal directories free of '%': DESIGN section 3), and a lookup of any name
+   in URL.Query() returns the values the client put under it, in order, although
+   Encode sorts the keys. *)
+Theorem C09_wire_path_agrees : forall fmt_float fmt_time bp method od v rq,
+  client_request fmt_float fmt_time bp method od v = Some rq ->
+  no_pct bp = true ->
+  Forall (fun d => match snd d with None => no_pct (fst d) = true | Some _ => True end) (od_path od) ->
+  exists ps, client_psegs fmt_float fmt_time (od_path od) (pp v) = Some ps /\
+             unescape false (raw_path bp ps) = Some (q_path rq).
+Proof. exact wire_path_agrees. Qed.
+Print Assumptions C09_wire_path_agrees.
+
+Theorem C09_wire_query_agrees : forall (q : list (str * str)) name,
+  vals name (parse_query (encode_query (sort_pairs q))) = vals name q.
+Proof. exact wire_query_agrees. Qed.
+Print Assumptions C09_wire_query_agrees.
